@@ -1,10 +1,20 @@
 /-
-  C36 — helper lemmas: the invariant "listed channels are not torn down" and totality of onePacket.
+  C36 — helper lemmas: the invariant on listed channels and totality of onePacket (no panic, no blocking send).
 -/
 import XC.Model.C36
 set_option maxRecDepth 2000
 namespace XC.C36
-def Listed (m : Mux) : Prop := ∀ c, some c ∈ m.chans → c.closed = false
+
+/-- what holds of every channel in chanList: it is not torn down; nothing is queued on `ch.msg` before the open has
+    been decided; the reply gate is only ever open on a decided channel -/
+def ChanOk (c : Chan) : Prop :=
+  c.closed = false ∧ (c.decided = false → c.msgQ = []) ∧ (c.reqPending = true → c.decided = true)
+
+def Listed (m : Mux) : Prop := ∀ c, some c ∈ m.chans → ChanOk c
+
+theorem chanOk_of_fields {c c' : Chan} (h : ChanOk c) (h1 : c'.closed = c.closed) (h2 : c'.decided = c.decided)
+    (h3 : c'.msgQ = c.msgQ) (h4 : c'.reqPending = c.reqPending) : ChanOk c' := by
+  unfold ChanOk; rw [h1, h2, h3, h4]; exact h
 
 theorem mem_set_some {l : List (Option Chan)} {i : Nat} {x : Option Chan} {c : Chan}
     (h : some c ∈ l.set i x) : some c ∈ l ∨ x = some c := by
@@ -13,11 +23,18 @@ theorem mem_set_some {l : List (Option Chan)} {i : Nat} {x : Option Chan} {c : C
   · exact Or.inr h.symm
 
 theorem listed_setChan {m : Mux} (h : Listed m) (id : Nat) (x : Option Chan)
-    (hx : ∀ c, x = some c → c.closed = false) : Listed (setChan m id x) := by
+    (hx : ∀ c, x = some c → ChanOk c) : Listed (setChan m id x) := by
   intro c hc
   rcases mem_set_some hc with h1 | h1
   · exact h c h1
   · exact hx c h1
+
+theorem listed_setChan_some {m : Mux} (h : Listed m) (id : Nat) (c : Chan) (hc : ChanOk c) :
+    Listed (setChan m id (some c)) :=
+  listed_setChan h id _ (by intro c' hc'; cases hc'; exact hc)
+
+theorem listed_setChan_none {m : Mux} (h : Listed m) (id : Nat) : Listed (setChan m id none) :=
+  listed_setChan h id none (by simp)
 
 theorem getChan_mem {m : Mux} {id : Nat} {c : Chan} (h : getChan m id = some c) : some c ∈ m.chans := by
   unfold getChan at h
@@ -28,166 +45,159 @@ theorem getChan_mem {m : Mux} {id : Nat} {c : Chan} (h : getChan m id = some c) 
     subst h
     exact List.mem_of_getElem? hg
 
-theorem chanSend_closed (c : Chan) (ev : String) (b : Bool) : (chanSend c ev b).1.closed = c.closed := by
-  unfold chanSend; split <;> rfl
+theorem chanSend_fields (c : Chan) (ev : String) (b : Bool) :
+    (chanSend c ev b).1.closed = c.closed ∧ (chanSend c ev b).1.decided = c.decided ∧
+    (chanSend c ev b).1.msgQ = c.msgQ ∧ (chanSend c ev b).1.reqPending = c.reqPending := by
+  unfold chanSend; split <;> exact ⟨rfl, rfl, rfl, rfl⟩
 
-theorem pushMsg_ok {c : Chan} (x : QMsg) (hc : c.closed = false) :
-    (pushMsg c x).1 ≠ .panic ∧ (pushMsg c x).2.closed = false := by
-  unfold pushMsg
-  simp only [hc, Bool.false_eq_true, ↓reduceIte]
-  split
-  · exact ⟨by simp, hc⟩
-  · exact ⟨by simp, rfl⟩
+theorem chanOk_chanSend {c : Chan} (h : ChanOk c) (ev : String) (b : Bool) : ChanOk (chanSend c ev b).1 :=
+  let f := chanSend_fields c ev b
+  chanOk_of_fields h f.1 f.2.1 f.2.2.1 f.2.2.2
 
-theorem pushMsg_ok' {c : Chan} {x : QMsg} {r : Outcome × Chan} (hc : c.closed = false) (h : pushMsg c x = r) :
-    r.1 ≠ .panic ∧ r.2.closed = false := by
-  subst h; exact pushMsg_ok x hc
+/-- a blocking send on the EMPTY queue of an open channel succeeds at once -/
+theorem pushMsg_empty {c : Chan} (x : QMsg) (hc : c.closed = false) (hq : c.msgQ = []) :
+    pushMsg c x = (.ok, { c with msgQ := [x] }) := by
+  unfold pushMsg; simp [hc, hq]
 
 theorem tryPushMsg_ok {c : Chan} {x : QMsg} (hc : c.closed = false) :
-    (tryPushMsg c x).1 = .ok ∧ (tryPushMsg c x).2.closed = false := by
+    (tryPushMsg c x).1 = .ok ∧ (tryPushMsg c x).2.closed = false ∧ (tryPushMsg c x).2.decided = c.decided ∧
+    (tryPushMsg c x).2.reqPending = c.reqPending := by
   unfold tryPushMsg
   simp only [hc, Bool.false_eq_true, ↓reduceIte]
   split
-  · exact ⟨rfl, hc⟩
-  · exact ⟨rfl, rfl⟩
+  · exact ⟨rfl, hc, rfl, rfl⟩
+  · exact ⟨rfl, rfl, rfl, rfl⟩
 
 theorem rdU32_some_of_length {b : Bytes} (h : 4 ≤ b.length) : ∃ v r, rdU32 b = some (v, r) := by
   match b, h with
   | a :: b1 :: c :: d :: rest, _ => exact ⟨_, _, rfl⟩
 
-
 theorem handleData_total {m : Mux} {id : Nat} {c : Chan} {p : Bytes} {hdr code : Nat}
-    (hl : Listed m) (hcl : c.closed = false) (hh : 4 ≤ hdr) :
-    (handleDataPkt m id c p hdr code).1 ≠ .panic ∧ Listed (handleDataPkt m id c p hdr code).2.1 := by
+    (hl : Listed m) (hok : ChanOk c) (hh : 4 ≤ hdr) :
+    (handleDataPkt m id c p hdr code).1 ≠ .panic ∧ (handleDataPkt m id c p hdr code).1 ≠ .blocks ∧
+      Listed (handleDataPkt m id c p hdr code).2.1 := by
   unfold handleDataPkt
   split
-  · exact ⟨by simp, hl⟩
+  · exact ⟨by simp, by simp, hl⟩
   · rename_i hlen
     have hge : 4 ≤ (p.drop (hdr - 4)).length := by simp only [List.length_drop]; omega
     obtain ⟨v, r, hv⟩ := rdU32_some_of_length hge
     simp only [hv]
     split
-    · exact ⟨by simp, hl⟩
-    · split
-      · exact ⟨by simp, listed_setChan hl id _ (by intro c' hc'; cases hc'; exact hcl)⟩
-      · refine ⟨by simp, listed_setChan hl id _ ?_⟩
-        intro c' hc'; cases hc'
-        rw [chanSend_closed]; exact hcl
+    · exact ⟨by simp, by simp, hl⟩
+    · rename_i r' adj _
+      have hc1 : ChanOk { c with rcv := r' } := chanOk_of_fields hok rfl rfl rfl rfl
+      split
+      · exact ⟨by simp, by simp, listed_setChan_some hl id _ hc1⟩
+      · exact ⟨by simp, by simp, listed_setChan_some hl id _ (chanOk_chanSend hc1 _ _)⟩
+
+theorem responseOk_spec {c c1 : Chan} (h : responseOk c = some c1) :
+    c.decided = false ∧ c1 = { c with decided := true } := by
+  unfold responseOk at h
+  split at h
+  · cases h
+  · split at h
+    · cases h
+    · rename_i hd; cases h; exact ⟨by simpa using hd, rfl⟩
 
 theorem handleChan_total {m : Mux} {id : Nat} {c : Chan} {p : Bytes} {t : Nat} {o : Outcome} {m' : Mux} {ev : Evs}
     (hl : Listed m) (hc : getChan m id = some c)
-    (h : handleChanPacket m id c p t = some (o, m', ev)) : o ≠ .panic ∧ Listed m' := by
-  have hcl : c.closed = false := hl c (getChan_mem hc)
+    (h : handleChanPacket m id c p t = some (o, m', ev)) : o ≠ .panic ∧ o ≠ .blocks ∧ Listed m' := by
+  have hok : ChanOk c := hl c (getChan_mem hc)
+  obtain ⟨hcl, hq, hrp⟩ := hok
+  have hok : ChanOk c := ⟨hcl, hq, hrp⟩
   unfold handleChanPacket at h
   split at h
   · simp only [Option.some.injEq] at h
-    have := handleData_total (m := m) (id := id) (c := c) (p := p) (hdr := 9) (code := 0) hl hcl (by omega)
+    have := handleData_total (m := m) (id := id) (c := c) (p := p) (hdr := 9) (code := 0) hl hok (by omega)
     rw [h] at this; exact this
   · split at h
     · simp only [Option.some.injEq] at h
       have := handleData_total (m := m) (id := id) (c := c) (p := p) (hdr := 13)
-        (code := (rdU32 (p.drop 5)).map (·.1) |>.getD 0) hl hcl (by omega)
+        (code := (rdU32 (p.drop 5)).map (·.1) |>.getD 0) hl hok (by omega)
       rw [h] at this; exact this
     · split at h
       · -- close
         cases h
-        refine ⟨by simp, ?_⟩
+        refine ⟨by simp, by simp, ?_⟩
         intro c' hc'
-        exact listed_setChan hl id none (by simp) c' hc'
+        exact listed_setChan_none hl id c' hc'
       · split at h
-        · cases h; exact ⟨by simp, hl⟩
+        · cases h; exact ⟨by simp, by simp, hl⟩
         · split at h
           · cases h
-          · cases h; exact ⟨by simp, hl⟩
+          · cases h; exact ⟨by simp, by simp, hl⟩
           · rename_i msg _
             split at h
             · -- openFailure
               split at h
-              · cases h; exact ⟨by simp, hl⟩
+              · cases h; exact ⟨by simp, by simp, hl⟩
               · rename_i c1 hr
-                have hc1 : c1.closed = false := by
-                  unfold responseOk at hr
-                  split at hr
-                  · cases hr
-                  · split at hr
-                    · cases hr
-                    · cases hr; exact hcl
-                obtain ⟨ho, _⟩ := pushMsg_ok (QMsg.failure ‹Nat›) hc1
-                generalize pushMsg c1 (QMsg.failure _) = r at h ho
-                obtain ⟨o1, c2⟩ := r
-                simp only at h ho
-                split at h
-                · cases h; exact ⟨by simp, hl⟩
-                · cases h
-                  refine ⟨ho, ?_⟩
-                  intro c' hc'
-                  exact listed_setChan hl _ none (by simp) c' hc'
+                obtain ⟨hund, rfl⟩ := responseOk_spec hr
+                rw [pushMsg_empty (c := { c with decided := true }) _ hcl (hq hund)] at h
+                simp only [reduceCtorEq, if_false] at h
+                cases h
+                refine ⟨by simp, by simp, ?_⟩
+                intro c' hc'
+                exact listed_setChan_none hl _ c' hc'
             · -- openConfirm
               split at h
-              · cases h; exact ⟨by simp, hl⟩
+              · cases h; exact ⟨by simp, by simp, hl⟩
               · rename_i c1 hr
-                have hc1 : c1.closed = false := by
-                  unfold responseOk at hr
-                  split at hr
-                  · cases hr
-                  · split at hr
-                    · cases hr
-                    · cases hr; exact hcl
+                obtain ⟨hund, rfl⟩ := responseOk_spec hr
                 split at h
                 · cases h
-                  exact ⟨by simp, listed_setChan hl id _ (by intro c' hc'; cases hc'; exact hc1)⟩
+                  exact ⟨by simp, by simp, listed_setChan_some hl id _ ⟨hcl, by simp, by simp⟩⟩
                 · split at h
                   · cases h
                   · rename_i w hw
                     dsimp only at h
-                    generalize hr : pushMsg _ QMsg.confirm = r at h
-                    obtain ⟨ho, hc2⟩ := pushMsg_ok' (by exact hc1) hr
-                    obtain ⟨o1, c2⟩ := r
-                    simp only at h ho hc2
+                    rw [pushMsg_empty (c := { c with decided := true, remoteId := _, maxRemote := _, remoteWin := w }) _
+                      (by exact hcl) (by exact hq hund)] at h
                     cases h
-                    exact ⟨ho, listed_setChan hl id _ (by intro c' hc'; cases hc'; exact hc2)⟩
+                    exact ⟨by simp, by simp, listed_setChan_some hl id _ ⟨hcl, by simp, by simp⟩⟩
             · -- windowAdjust
               split at h
-              · cases h; exact ⟨by simp, hl⟩
+              · cases h; exact ⟨by simp, by simp, hl⟩
               · cases h
-                exact ⟨by simp, listed_setChan hl id _ (by intro c' hc'; cases hc'; exact hcl)⟩
+                exact ⟨by simp, by simp, listed_setChan_some hl id _ (chanOk_of_fields hok rfl rfl rfl rfl)⟩
             · -- chanRequest
               simp only [hcl, Bool.false_eq_true, ↓reduceIte] at h
               split at h
               · cases h
               · split at h
-                · cases h; exact ⟨by simp, hl⟩
+                · cases h; exact ⟨by simp, by simp, hl⟩
                 · cases h
-                  refine ⟨by simp, listed_setChan hl id _ ?_⟩
-                  intro c' hc'; cases hc'
-                  rw [chanSend_closed]; exact hcl
+                  exact ⟨by simp, by simp, listed_setChan_some hl id _ (chanOk_chanSend hok _ _)⟩
             · -- chanSuccess
               split at h
-              · cases h; exact ⟨by simp, hl⟩
-              · obtain ⟨ho, hc2⟩ := tryPushMsg_ok (x := QMsg.success) hcl
-                generalize tryPushMsg c QMsg.success = r at h ho hc2
+              · cases h; exact ⟨by simp, by simp, hl⟩
+              · rename_i hp
+                simp only [Bool.not_eq_true, Bool.not_eq_false] at hp
+                obtain ⟨ho, hc2, hd2, hr2⟩ := tryPushMsg_ok (x := QMsg.success) hcl
+                generalize tryPushMsg c QMsg.success = r at h ho hc2 hd2 hr2
                 obtain ⟨o1, c2⟩ := r
-                simp only at ho hc2 h
+                simp only at ho hc2 hd2 hr2 h
                 cases h
-                exact ⟨by simp [ho], listed_setChan hl id _ (by intro c' hc'; cases hc'; exact hc2)⟩
+                refine ⟨by simp [ho], by simp [ho], listed_setChan_some hl id _ ⟨hc2, ?_, ?_⟩⟩
+                · intro hd; rw [hd2, hrp (by simpa using hp)] at hd; cases hd
+                · intro _; rw [hd2]; exact hrp (by simpa using hp)
             · split at h
-              · cases h; exact ⟨by simp, hl⟩
-              · obtain ⟨ho, hc2⟩ := tryPushMsg_ok (x := QMsg.reqFailure) hcl
-                generalize tryPushMsg c QMsg.reqFailure = r at h ho hc2
+              · cases h; exact ⟨by simp, by simp, hl⟩
+              · rename_i hp
+                simp only [Bool.not_eq_true, Bool.not_eq_false] at hp
+                obtain ⟨ho, hc2, hd2, hr2⟩ := tryPushMsg_ok (x := QMsg.reqFailure) hcl
+                generalize tryPushMsg c QMsg.reqFailure = r at h ho hc2 hd2 hr2
                 obtain ⟨o1, c2⟩ := r
-                simp only at ho hc2 h
+                simp only at ho hc2 hd2 hr2 h
                 cases h
-                exact ⟨by simp [ho], listed_setChan hl id _ (by intro c' hc'; cases hc'; exact hc2)⟩
-            · -- default arm
-              obtain ⟨ho, hc2⟩ := pushMsg_ok QMsg.other hcl
-              generalize pushMsg c QMsg.other = r at h ho hc2
-              obtain ⟨o1, c2⟩ := r
-              simp only at h ho hc2
-              cases h
-              exact ⟨ho, listed_setChan hl id _ (by intro c' hc'; cases hc'; exact hc2)⟩
+                refine ⟨by simp [ho], by simp [ho], listed_setChan_some hl id _ ⟨hc2, ?_, ?_⟩⟩
+                · intro hd; rw [hd2, hrp (by simpa using hp)] at hd; cases hd
+                · intro _; rw [hd2]; exact hrp (by simpa using hp)
+            · -- default arm: not a channel message ⇒ protocol error (no send on ch.msg)
+              cases h; exact ⟨by simp, by simp, hl⟩
 
-
-theorem listed_addChan {m : Mux} (h : Listed m) (c : Chan) (hc : c.closed = false) : Listed (addChan m c).1 := by
+theorem listed_addChan {m : Mux} (h : Listed m) (c : Chan) (hc : ChanOk c) : Listed (addChan m c).1 := by
   unfold addChan
   split
   · intro c' hc'
@@ -223,10 +233,11 @@ theorem decode_global {t : Nat} {b : Bytes} {msg : Msg} (ht : t = 80 ∨ t = 81 
     cases h; exact Or.inr (Or.inr ⟨_, rfl⟩)
 
 
-/-- **mux_total**: on every non-empty packet `onePacket` (where modelled) returns ok or err — never a Go panic —
-    and keeps the invariant that listed channels are not torn down. -/
+/-- **mux_total**: on every non-empty packet `onePacket` (where modelled) returns ok or err — never a Go panic, and never
+    parks in a blocking send on a channel's `msg` queue — and keeps the invariant `Listed`. -/
 theorem mux_total {m : Mux} {p : Bytes} {o : Outcome} {m' : Mux} {ev : Evs}
-    (hl : Listed m) (hne : p ≠ []) (h : onePacket m p = some (o, m', ev)) : o ≠ .panic ∧ Listed m' := by
+    (hl : Listed m) (hne : p ≠ []) (h : onePacket m p = some (o, m', ev)) :
+    o ≠ .panic ∧ o ≠ .blocks ∧ Listed m' := by
   unfold onePacket at h
   split at h
   · exact absurd rfl hne
@@ -236,31 +247,29 @@ theorem mux_total {m : Mux} {p : Bytes} {o : Outcome} {m' : Mux} {ev : Evs}
     · -- channel open
       rename_i ht
       cases hd : decode (t8 :: body) with
-      | error e => rw [hd] at h; cases h; exact ⟨by simp, hl⟩
+      | error e => rw [hd] at h; cases h; exact ⟨by simp, by simp, hl⟩
       | ok msg =>
         have hd' : decodeBody 90 body = .ok msg := by simpa [decode, ht] using hd
         obtain ⟨typ, pid, win, mp, extra, rfl⟩ := decode_90 hd'
         rw [hd] at h
         dsimp only at h
         split at h
-        · cases h; exact ⟨by simp, hl⟩
+        · cases h; exact ⟨by simp, by simp, hl⟩
         · have hnew : Listed (addChan { m with nextUid := m.nextUid + 1 }
               { newChan true m.nextUid with remoteId := pid, maxRemote := mp, remoteWin := win % 4294967296 }).1 :=
-            listed_addChan (m := { m with nextUid := m.nextUid + 1 }) hl _ rfl
+            listed_addChan (m := { m with nextUid := m.nextUid + 1 }) hl _ ⟨rfl, fun _ => rfl, by simp [newChan]⟩
           split at h
           · cases h
-            exact ⟨by simp, hnew⟩
+            exact ⟨by simp, by simp, hnew⟩
           · split at h
             · cases h
-              refine ⟨by simp, ?_⟩
+              refine ⟨by simp, by simp, ?_⟩
               intro c' hc'
-              refine listed_setChan hnew _ _ ?_ c' hc'
-              intro c'' hc''; cases hc''
-              rw [chanSend_closed]; rfl
+              refine listed_setChan_some hnew _ _ (chanOk_chanSend ⟨rfl, by simp [newChan], by simp [newChan]⟩ _ _) c' hc'
             · cases h
-              refine ⟨by simp, ?_⟩
+              refine ⟨by simp, by simp, ?_⟩
               intro c' hc'
-              exact listed_setChan hnew _ none (by simp) c' hc'
+              exact listed_setChan_none hnew _ c' hc'
     · split at h
       · -- global packets
         rename_i ht
@@ -271,32 +280,32 @@ theorem mux_total {m : Mux} {p : Bytes} {o : Outcome} {m' : Mux} {ev : Evs}
           · exact Or.inr (Or.inl h1)
           · exact Or.inr (Or.inr h1)
         cases hd : decode (t8 :: body) with
-        | error e => rw [hd] at h; cases h; exact ⟨by simp, hl⟩
+        | error e => rw [hd] at h; cases h; exact ⟨by simp, by simp, hl⟩
         | ok msg =>
           have hd' : decodeBody t8.toNat body = .ok msg := by simpa [decode] using hd
           rw [hd] at h
           rcases decode_global ht' hd' with ⟨n, w, d, rfl⟩ | ⟨d, rfl⟩ | ⟨d, rfl⟩
           · dsimp only at h
             split at h
-            · cases h; exact ⟨by simp, hl⟩
-            · cases h; exact ⟨by simp, hl⟩
+            · cases h; exact ⟨by simp, by simp, hl⟩
+            · cases h; exact ⟨by simp, by simp, hl⟩
           · dsimp only at h
             split at h
-            · cases h; exact ⟨by simp, hl⟩
-            · cases h; exact ⟨by simp, hl⟩
+            · cases h; exact ⟨by simp, by simp, hl⟩
+            · cases h; exact ⟨by simp, by simp, hl⟩
           · dsimp only at h
             split at h
-            · cases h; exact ⟨by simp, hl⟩
-            · cases h; exact ⟨by simp, hl⟩
+            · cases h; exact ⟨by simp, by simp, hl⟩
+            · cases h; exact ⟨by simp, by simp, hl⟩
       · split at h
         · -- ping
           split at h
-          · cases h; exact ⟨by simp, hl⟩
+          · cases h; exact ⟨by simp, by simp, hl⟩
           · split at h
-            · cases h; exact ⟨by simp, hl⟩
-            · cases h; exact ⟨by simp, hl⟩
+            · cases h; exact ⟨by simp, by simp, hl⟩
+            · cases h; exact ⟨by simp, by simp, hl⟩
         · split at h
-          · cases h; exact ⟨by simp, hl⟩
+          · cases h; exact ⟨by simp, by simp, hl⟩
           · rename_i hlen
             have hb : 4 ≤ body.length := by simp only [List.length_cons] at hlen; omega
             obtain ⟨v, r, hv⟩ := rdU32_some_of_length hb
@@ -307,10 +316,10 @@ theorem mux_total {m : Mux} {p : Bytes} {o : Outcome} {m' : Mux} {ev : Evs}
               exact handleChan_total hl hc h
             · split at h
               · cases h
-              · cases h; exact ⟨by simp, hl⟩
+              · cases h; exact ⟨by simp, by simp, hl⟩
               · split at h
-                · cases h; exact ⟨by simp, hl⟩
-                · cases h; exact ⟨by simp, hl⟩
-              · cases h; exact ⟨by simp, hl⟩
+                · cases h; exact ⟨by simp, by simp, hl⟩
+                · cases h; exact ⟨by simp, by simp, hl⟩
+              · cases h; exact ⟨by simp, by simp, hl⟩
 
 end XC.C36
